@@ -1267,3 +1267,74 @@ func runC15GracefulStop(c *Ctx) {
 		c.Check(graceful > 0, "the receiver stops its gRPC server gracefully", "-", fmt.Sprintf("%d GracefulStop call(s), no hard Stop", graceful), "no GracefulStop call found in the OTLP receiver")
 	}
 }
+
+// ---------- C05.R18: the last flush is not bound to the shutdown context ----------
+func init() { addRules("C05", runC05FlushCtxNotShutdownCtx) }
+
+func runC05FlushCtxNotShutdownCtx(c *Ctx) {
+	p := c.P
+	c.Rule("R18", "DEP", "a retry that shutdown interrupts ends with a shutdown-classified error: the context under which the batcher's last flush (and the retries below it) runs does not derive from the context given to Shutdown – the retry loop tests the context's deadline before the stop channel, so a shutdown deadline shorter than the next back-off turns the interruption into `request will be cancelled before next retry`, a final failure, and the persistent queue deletes the batch", 1)
+	pk := p.Pkg("exporter/exporterhelper/internal/queuebatch")
+	if pk == nil {
+		c.Anchor("exporter/exporterhelper/internal/queuebatch")
+		return
+	}
+	n := 0
+	for _, fn := range p.AllSrcFuncs(pk) {
+		if fn.Parent() != nil || fn.Name() != "Shutdown" || fn.Signature.Recv() == nil || len(fn.Params) != 2 {
+			continue
+		}
+		// batchers: the receiver type has a field holding a pending batch (a pointer to a struct with a context field)
+		st := derefStruct(fn.Signature.Recv().Type())
+		if st == nil {
+			continue
+		}
+		hasBatch := false
+		for i := 0; i < st.NumFields(); i++ {
+			if bs := derefStruct(st.Field(i).Type()); bs != nil {
+				for j := 0; j < bs.NumFields(); j++ {
+					if typeIs(bs.Field(j).Type(), "context", "Context") {
+						hasBatch = true
+					}
+				}
+			}
+		}
+		if !hasBatch {
+			continue
+		}
+		n++
+		ctxParam := fn.Params[1]
+		var bad ssa.Instruction
+		for _, g := range withAnon(fn) {
+			allInstrs(g, func(in ssa.Instruction) {
+				var vals []ssa.Value
+				switch x := in.(type) {
+				case *ssa.Store:
+					if typeIs(x.Val.Type(), "context", "Context") {
+						vals = append(vals, x.Val)
+					}
+				case ssa.CallInstruction:
+					// a context handed to a method of the batcher itself (flush …)
+					if sf := staticCalleeFn(x); sf != nil && sf.Pkg == fn.Pkg && sf.Signature.Recv() != nil {
+						for _, a := range x.Common().Args {
+							if typeIs(a.Type(), "context", "Context") {
+								vals = append(vals, a)
+							}
+						}
+					}
+				}
+				for _, v := range vals {
+					for w := range backSlice(v) {
+						if w == ssa.Value(ctxParam) || loadsParam(w, ctxParam) {
+							bad = in
+						}
+					}
+				}
+			})
+		}
+		c.Check(bad == nil, "the last flush of "+fnName(fn)+" does not run under the shutdown context", p.Pos(fn.Pos()), "no context derived from Shutdown's parameter is stored or handed to the flush", "a context derived from the one given to Shutdown is attached to the pending batch ("+posOf(p, bad)+"): persistent queue, retry enabled, failing backend, Shutdown(ctx) with a deadline shorter than the next back-off – the retry gives up with a non-shutdown error and the queue deletes the batch; after the restart it is gone")
+	}
+	if n == 0 {
+		c.Undecided("Shutdown of a batcher with a pending batch", "-", "not found")
+	}
+}
